@@ -299,7 +299,10 @@ impl Exec {
                 if let Strategy::Script(sc) = &self.strategy {
                     if script_pos < sc.len() {
                         let (t, exp) = &sc[script_pos];
-                        let ok = el.contains(t) && (exp.is_empty() || st.tasks[*t].pending_op.starts_with(exp.as_str()));
+                        // a script may resume a spinning/blocked task even without intervening progress (the model allows
+                        // a spin loop to iterate as often as it likes); only finished tasks are out of reach
+                        let alive = st.tasks.get(*t).map(|x| x.status != Status::Finished).unwrap_or(false);
+                        let ok = alive && (exp.is_empty() || st.tasks[*t].pending_op.starts_with(exp.as_str()));
                         if ok {
                             choice = Some(*t);
                             script_pos += 1;
